@@ -70,6 +70,10 @@ def focus_configs(info, tier, setname="gen"):
             if c not in seen:
                 seen.add(c)
                 out.append((v, c))
+    if info.get("attr_stores"):
+        # the attribute o.at of the argument o, stored by plain / augmented / tuple assignment
+        out.append(("o.at", ()))
+        out.append(("o.at", ("x",)))
     return out
 
 
